@@ -400,4 +400,39 @@ def Ev.toLine : Ev → String
   | .gterm v x => s!"gterm {v} {x.hex}"
   | .endInput => "end"
 
+/-! ## `READ_BOUNDS_FIRST`: the file split at the `b` segment -/
+/-- everything `evBody` reports except the variable bounds and `EndInput`, split at the `b` segment -/
+def evPre (cd : Codec) (m : Model) (o : Opts) : List Ev :=
+  let nv := m.hdr.nv
+  evFuncs 0 m.funcs ++ (evSuffixes cd m.sufs ++ (evSuffixes cd (plsosSuffixes m) ++
+    (if o.boundsFirst then [] else
+      evDefVars cd o nv 0 m.dv0 ++ (evACons cd o nv 0 m.cons ++ (evLCons cd o nv m.hdr.nac 0 m.lcons ++
+        (evObjs cd o nv (m.hdr.nac + m.hdr.nlc) 0 m.objs ++
+          (evInit cd Ev.d0 m.d0 ++ (evInit cd Ev.x0 m.x0 ++ (if m.hdr.nac ≠ 0 then evConBnds cd 0 m.cb else [])))))))))
+
+def evPost (cd : Codec) (m : Model) (o : Opts) : List Ev :=
+  let nv := m.hdr.nv
+  (if o.boundsFirst then
+    (evInit cd Ev.x0 m.x0 ++ ((if m.hdr.nac ≠ 0 then evConBnds cd 0 m.cb else []) ++ evInit cd Ev.d0 m.d0)) ++
+      (evDefVars cd o nv 0 m.dv0 ++ (evACons cd o nv 0 m.cons ++ (evLCons cd o nv m.hdr.nac 0 m.lcons ++
+        evObjs cd o nv (m.hdr.nac + m.hdr.nlc) 0 m.objs)))
+   else []) ++ (evColSizes m o ++ (evJ cd 0 m.cons ++ evG cd 0 m.objs))
+
+def wPre (m : Model) (o : Opts) : List Tok :=
+  wFunctions 0 m.funcs ++ (wSuffixes o m.sufs ++ (wSuffixes o (plsosSuffixes m) ++
+    (if o.boundsFirst then [] else
+      wDefVars o 0 m.dv0 ++ (wACons o 0 m.cons ++ (wLCons o m.hdr.nac 0 m.lcons ++ (wObjs o (m.hdr.nac + m.hdr.nlc) 0 m.objs ++
+        (wInit .segd o "initial dual guess" m.d0 ++ (wInit .segx o "initial guess" m.x0 ++ wConBounds m o))))))))
+
+def wPost (m : Model) (o : Opts) : List Tok :=
+  (if o.boundsFirst then
+    (wInit .segx o "initial guess" m.x0 ++ (wConBounds m o ++ wInit .segd o "initial dual guess" m.d0)) ++
+      (wDefVars o 0 m.dv0 ++ (wACons o 0 m.cons ++ (wLCons o m.hdr.nac 0 m.lcons ++ wObjs o (m.hdr.nac + m.hdr.nlc) 0 m.objs)))
+   else []) ++ (wColSizes m o ++ (wJ 0 m.cons ++ wG 0 m.objs))
+
+/-- what the handler is told with `READ_BOUNDS_FIRST`: the variable bounds right after the header, then everything else in file order -/
+def eventsBF (cd : Codec) (m : Model) (o : Opts) : List Ev :=
+  Ev.header (readBackHdr cd (effHdr m) o) :: (evVarBnds cd 0 m.vb ++ (evPre cd m o ++ (evPost cd m o ++ [Ev.endInput])))
+
+
 end MpVerif.C03
